@@ -71,7 +71,7 @@ def tables_agree(ctx):
         wfn, rfn = ctx.fn(wrel, name), ctx.fn(rrel, name)
         ws, rs = _style_literals(wfn), _style_literals(rfn)
         ctx.ob('TABLES-AGREE', rrel + '::' + name, 'reader and writer dispatch on the same atom styles', sorted(ws) == sorted(rs), 'writer only %s; reader only %s' % (sorted(set(ws) - set(rs)), sorted(set(rs) - set(ws))), node=rfn)
-        for st in [s for s in ws if s != 'hybrid' and s in rs] + ['hybrid charge sphere', 'hybrid sphere dipole']:
+        for st in [s for s in ws if s != 'hybrid' and s in rs] + ['hybrid charge sphere', 'hybrid sphere dipole', 'hybrid charge dipole', 'hybrid sphere peri ellipsoid']:
             n += 1
             try:
                 wt, _ = eval_table(ctx, wrel, name, st, 'UQ')
@@ -87,7 +87,7 @@ def tables_agree(ctx):
                 diff = [(a, b) for a, b in itertools.zip_longest(_canon(wt), _canon(rt)) if a != b]
                 det = 'first difference: writer %s / reader %s' % diff[0]
             ctx.ob('TABLES-AGREE', rrel + '::' + name, '%s: the reader\'s column table equals the writer\'s (names, order, components, units from the requested style)' % st, ok, det, node=rfn, key=st)
-    ctx.floor('TABLES-AGREE', n, 40)
+    ctx.floor('TABLES-AGREE', n, 44)
     # standard dump columns
     outs = []
     for rel in (D_DPI, L_DPI):
